@@ -6,27 +6,22 @@ from . import common, engine, properties
 
 
 def harness_for(pid, tier="quick", seed=0):
-    """rebuild the harness files the property's check uses (same generators)"""
-    from harness import props
-    gens = {
-        "C13": lambda: {"h_acq.rs": props.gen_acq(tier, envs=("q",), only_try=True)[0]},
-        "C04": lambda: {"h_acq.rs": props.gen_acq(tier, envs=("q", "a"))[0]},
-        "C05": lambda: {"h_acq.rs": props.gen_acq(tier, envs=("a",))[0]},
-        "C03": lambda: {"h_acq.rs": props.gen_acq(tier, envs=("a",))[0]},
-        "C09": lambda: {"h_acq.rs": props.gen_acq(tier, envs=("a",), kinds=lambda sh: sh.kind == "retry" or "rt" in sh.name, only_blocking=True, budget=3)[0]},
-        "C01": lambda: {"h_acq.rs": props.gen_acq(tier, envs=("a",), only_blocking=True, budget=3)[0], "h_seq.rs": props.gen_seq(tier, seed, 48)[0]},
-        "C11": lambda: {"h_panic.rs": props.gen_panic(tier, "user")[0]},
-        "C12": lambda: {"h_fault.rs": props.gen_panic(tier, "fault", fixed_seed=seed)[0],
-                        "h_evil.rs": props.gen_panic(tier, "evil", kinds=lambda sh: sh.kind not in ("single_m", "single_r"), fixed_seed=seed)[0]},
-        "C10": lambda: {"h_poison.rs": props.gen_poison(tier)[0]},
-        "C07": lambda: {"h_dup.rs": props.gen_dup(tier)[0]},
-        "C08": lambda: {"h_order.rs": props.gen_order(tier)[0]},
-        "C06": lambda: {"h_key.rs": props.gen_key(tier)[0]},
-        "C02": lambda: {"h_data.rs": props.gen_data(tier)[0]},
-        "C16": lambda: {"h_drop.rs": props.gen_drop(tier)[0]},
-        "C17": lambda: {"h_nonacq.rs": props.gen_nonacq(tier)[0]},
-    }
-    return gens[pid]()
+    """the harness files the property's check generates: obtained by running the property's own definition
+    with the exploration step replaced by a recorder"""
+    captured = {}
+
+    def recorder(pid_, tier_, seed_, harness_files, *a, **k):
+        captured["files"] = harness_files
+        return 0
+
+    from . import checks
+    orig = checks.run_mirsym_property
+    checks.run_mirsym_property = recorder
+    try:
+        properties.PROPS[pid](tier, seed)
+    finally:
+        checks.run_mirsym_property = orig
+    return captured["files"]
 
 
 def replay(pid, path):
